@@ -231,7 +231,7 @@ func init() {
 			"derived views (GetNoteStart, GetNoteEnd, GetChannel, and the wrappers GetMetaKey, GetMetaMeter) are checked for agreement with their base, not for exclusivity",
 			"sampled FF tt strings keep the embedded length VLQ at most 3 bytes: String() allocates the declared text length and the property is about panics, not allocation",
 		},
-		Require: []string{"strings_midi", "strings_smf", "meta_strings", "strings_accepted_by_an_accessor", "cat:midi:channel", "cat:midi:syscommon", "cat:midi:realtime", "cat:midi:sysex", "cat:midi:unknown", "cat:smf:meta", "patterned_long_strings"},
+		Require: []string{"strings_midi", "strings_smf", "meta_strings", "strings_accepted_by_an_accessor", "cat:midi:channel", "cat:midi:syscommon", "cat:midi:realtime", "cat:midi:sysex", "cat:midi:unknown", "cat:smf:meta", "patterned_long_strings", "byte_substitution_strings"},
 		Run:     runC08,
 	})
 }
@@ -400,6 +400,37 @@ func runC08(c *mon.Ctx) {
 			c.Count("constructed_messages", 1)
 			c.Count("strings_smf", 1)
 			c.DistinctBytes(m)
+		}
+	})
+	// valid messages of every kind with their first (and second) byte replaced by every other value:
+	// accessors must gate on the type, not only on length and inner bytes
+	c.Each("byte-substitution", 16, func(i int64, r *mon.Rand) {
+		msgs := constructedSMFMessages(r)
+		msgs = append(msgs, []byte{0x90, 60, 100}, []byte{0x80, 60, 0}, []byte{0xA0, 1, 2}, []byte{0xB0, 7, 100}, []byte{0xC0, 5}, []byte{0xD0, 9}, []byte{0xE0, 0, 64},
+			[]byte{0xF1, 3}, []byte{0xF2, 1, 2}, []byte{0xF3, 4}, []byte{0xF6}, []byte{0xF0, 1, 2, 0xF7}, []byte{0xF0, 0x58, 0x04, 1, 2, 3, 0xF7}, []byte{0xF7, 1, 2})
+		var n int64
+		for k, m := range msgs {
+			if k%16 != int(i) || len(m) > 48 {
+				continue
+			}
+			for pos := 0; pos < 2 && pos < len(m); pos++ {
+				orig := m[pos]
+				mm := append([]byte(nil), m...)
+				for v := 0; v < 256; v++ {
+					mm[pos] = byte(v)
+					c.Count("cat:smf:"+classifySMF(c, mm), 1)
+					classifyMidi(c, mm)
+					n++
+				}
+				mm[pos] = orig
+			}
+		}
+		c.Count("byte_substitution_strings", n)
+		c.Count("strings_smf", n)
+		c.Count("strings_midi", n)
+		c.Enumerated(n)
+		if n > 0 {
+			c.Eval(n - 1)
 		}
 	})
 }
